@@ -27,6 +27,17 @@ lengths, a pair whose second item is no dictionary), which are data as a whole.
 Group "functions": variables made by lena.variables.abs(var, latex_name=...) stand in the chains
 (numeric getters x -> a*x + b), with the additional law
   argument-unchanged      building abs(var) leaves var as it was
+Group "attribute-names": the extra attributes ("arbitrary" in the statement) are named like the methods
+and markers that lena.core looks up on the elements of a sequence (run, fill, compute, request, fill_into,
+reset; _has_no_data, _get_context, _set_context, _repr_nested, _can_break_flow), with truthy and falsy
+non-callable values; on plain variables of a chain, as keywords of a Compose and of a Combine. Same laws.
+Group "history": variables with PARTIAL getters (x -> (i, x), raising on data outside their domain). Every
+case is judged fresh as above and then again on objects that have a history: a prelude of one or two
+earlier applications - to an equal value in another context form, to other data, and to a value outside
+the domain of the k-th getter for every k (the application fails, the exception is caught, the next value
+is given), as the first application ever and after a good one - with the law
+  history-independence    after any prelude the Sequence / the Compose gives for x what a fresh one gives
+(whether and how the failing application raises is recorded, not judged).
 """
 import collections
 import copy
@@ -51,7 +62,13 @@ RULE = ("every chain (ordered selection of distinct typed variables, every assig
         "of chains / Compose / Combine items x every (container of the pair, form of the context, kind of "
         "data) of the stated lists; group functions: every chain of 1..3 (thorough 4) variables of which at "
         "least one was made by abs (of a plain variable, of a Compose, of an abs variable), and Combine "
-        "tuples of such; one case = one (items, Compose "
+        "tuples of such; group attribute-names: chains of 1..3 (thorough 4) variables, every assignment of "
+        "{no attributes, three profiles of attributes named like element methods / markers} with at least "
+        "one such profile up to length 2 (thorough 3), one such position beyond, and Compose / Combine with "
+        "such keywords; group history: every chain of 1..3 (thorough 4) variables with partial getters, "
+        "every bracketing, Combine items, each judged fresh and after every prelude of the stated list (a "
+        "history case = (items, value form, prelude), non-trivial when an application of the prelude "
+        "really raised or was given another value than the judged one); one case = one (items, Compose "
         "keywords, value form); a case is non-trivial when context.variable has to keep at least two "
         "typed descriptions apart (chain including the pre-existing variable has >= 2 types) or a "
         "Combine has >= 2 items; cases are keyed by their JSON text, so they are counted once")
@@ -82,8 +99,18 @@ ASSUMPTIONS = [
     "alphabet - on the unchanged tree they raise LenaAttributeError for every argument (they call "
     "Variable.get, which does not exist; the module documents itself as not to be relied on, its tests "
     "are disabled); abs of a variable is expected to keep its type and other attributes",
+    "group attribute-names: attribute VALUES are data (numbers, strings, None, lists, dictionaries), never "
+    "callables - a variable with a callable attribute run is by lena's duck typing a Run element; the "
+    "names are the public method names run, fill, compute, request, fill_into, reset and the private "
+    "markers _has_no_data, _get_context, _set_context, _repr_nested, _can_break_flow",
+    "group history: a getter may raise for data outside its domain (TypeError, KeyError, ValueError, "
+    "ZeroDivisionError or IndexError, fixed per variable); the caller catches the exception and goes on "
+    "with the next value. Nothing is demanded of the failing application itself (neither that it raises "
+    "nor which type, nor what it leaves in the context of that value); demanded is only that later "
+    "applications to values inside the domain give what a fresh object gives, and that var_context, "
+    "getter and composed variables are what they were. Preludes have 1 or 2 steps",
 ]
-NONTRIVIAL_FLOOR = {"quick": 20000, "thorough": 500000}
+NONTRIVIAL_FLOOR = {"quick": 30000, "thorough": 500000}
 BUDGET_S = {"quick": 240, "thorough": 3000}
 
 LEVEL_TEXT = ("bounded exhaustive exploration: all chains of 1..4 (thorough: 1..5) distinct typed "
@@ -94,22 +121,34 @@ LEVEL_TEXT = ("bounded exhaustive exploration: all chains of 1..4 (thorough: 1..
               "value (with and without context, with untyped / typed / composed context.variable), a "
               "fixed list of chains over every container of a (data, context) pair (tuple and dict "
               "subclasses, look-alikes that are plain data, data that look like pairs or contexts), and "
-              "chains with variables made by lena.variables.abs (latex_name given), on "
+              "chains with variables made by lena.variables.abs (latex_name given), chains / Compose / "
+              "Combine whose extra attributes are named like the methods and markers lena.core looks up on "
+              "sequence elements, and chains of variables with partial getters applied after every prelude "
+              "of 1..2 earlier applications (other context, other data, a value on which the k-th getter "
+              "raises, for every k), on "
               "the real lena.variables code and judged by an independent description model")
 LEVEL_NOTE = ("holds for the enumerated alphabet only: pairwise distinct non-empty types, four attribute "
               "profiles, one data value outside the group containers (six kinds of data there); "
               "of lena.variables.functions only abs(var, latex_name=given) of plain, composed and abs "
               "variables, chains of at most 3 (thorough 4) items; abs without latex_name and Cm raise "
-              "for every argument on the unchanged tree and are left out")
+              "for every argument on the unchanged tree and are left out; attribute values are data, never "
+              "callables; histories are preludes of at most two earlier applications, and the failing "
+              "application itself is not judged")
 TECHNIQUE = ("exhaustive enumeration of variable chains, bracketings and Combine tuples on the real code; "
              "reference model of getter composition and of the variable description; differential "
              "Compose vs Sequence vs flat chain; before/after snapshots of every var_context "
-             "(also around the construction of abs variables)")
+             "(also around the construction of abs variables); object with a history (earlier and "
+             "failed applications) vs fresh object")
 
 
 CONT_FORMS_QUICK = ("empty", "plain", "typed-variable", "composed-variable", "as-first")
 CONT_FORMS_ALL = ("empty", "plain", "untyped-variable", "typed-variable", "composed-variable",
                   "empty-variable", "as-first")
+
+
+AN_FORMS_QUICK = ("bare", "plain", "typed-variable", "as-first")
+HIST_FORMS_QUICK = ("bare", "plain", "typed-variable")
+PRELUDE_FORMS = ("bare", "composed-variable")
 
 
 def _dom(tier):
@@ -119,13 +158,17 @@ def _dom(tier):
                     parts={1: 1, 2: 1, 3: 2, 4: 24, 5: 40}, nest_parts={2: 1, 3: 1, 4: 4, 5: 24},
                     comb_parts=24, cn_parts=4, mixed_parts=8,
                     cont_chain=4, cont_nest=3, cont_combine=3, cont_forms=CONT_FORMS_ALL, cont_parts=16,
-                    fn_chain=4, fn_parts=16)
+                    fn_chain=4, fn_parts=16,
+                    an_chain=4, an_full=3, an_forms=M.VALUE_FORMS, an_parts=8,
+                    hist_chain=4, hist_nest=4, hist_forms=M.VALUE_FORMS, hist_parts=32)
     return dict(pool=4, chain=4, profiles=(0, 1, 2), profiles_at={}, nest=4, combine=4, comb_pool=4,
                 cn_len=3, mixed=3, kw_chain=3,
                 parts={1: 1, 2: 1, 3: 2, 4: 8}, nest_parts={2: 1, 3: 1, 4: 4},
                 comb_parts=3, cn_parts=4, mixed_parts=2,
                 cont_chain=3, cont_nest=2, cont_combine=2, cont_forms=CONT_FORMS_QUICK, cont_parts=4,
-                fn_chain=3, fn_parts=4)
+                fn_chain=3, fn_parts=4,
+                an_chain=3, an_full=2, an_forms=AN_FORMS_QUICK, an_parts=2,
+                hist_chain=3, hist_nest=3, hist_forms=HIST_FORMS_QUICK, hist_parts=4)
 
 
 def describe(tier):
@@ -143,11 +186,19 @@ def describe(tier):
             "abs(abs(v)) of every variable x 5 profiles alone, every chain of 2 distinct types with 4 "
             "variants per position (plain, abs, abs with name, abs(abs)) and at least one function, chains "
             "of 3..%d with one variant per position and mask, abs of a Compose of two alone and next to a "
-            "third variable, Combine of two with function variables"
+            "third variable, Combine of two with function variables; attribute-names: chains of 1..%d in "
+            "every order, every assignment of {none, names-truthy, names-falsy, private markers} with at "
+            "least one of the three up to length %d and one such position beyond, Compose and Combine of two "
+            "with such keywords alone and next to a third variable, %d value forms; history: chains of "
+            "1..%d partial variables in every order, all bracketings of 2..%d, 4 items with a Combine per "
+            "ordered pair, %d value forms, each fresh and after every prelude: equal data in each of 2 "
+            "context forms (bare, composed variable), other data, and for every getter k x these 2 forms a "
+            "value on which getter k raises, as the first application and after a good one"
             % (d["pool"], d["chain"], len(d["profiles"]), d["nest"], d["kw_chain"], d["combine"],
                d["cn_len"], d["mixed"], d["cont_chain"], d["cont_nest"], d["cont_combine"],
                len(PAIR_CONTAINERS), len(d["cont_forms"]), len(BARE_CONTAINERS), len(M.DATA_KINDS) - 1,
-               d["fn_chain"]))
+               d["fn_chain"], d["an_chain"], d["an_full"], len(d["an_forms"]), d["hist_chain"],
+               d["hist_nest"], len(d["hist_forms"])))
 
 
 # -- enumeration -----------------------------------------------------------------------------------
@@ -205,6 +256,12 @@ def shards(tier):
     for j in range(d["fn_parts"]):
         out.append({"kind": "functions", "part": j, "of": d["fn_parts"],
                     "bound": "length<=%d" % d["fn_chain"]})
+    for j in range(d["an_parts"]):
+        out.append({"kind": "attribute-names", "part": j, "of": d["an_parts"],
+                    "bound": "length<=%d" % d["an_chain"]})
+    for j in range(d["hist_parts"]):
+        out.append({"kind": "history", "part": j, "of": d["hist_parts"],
+                    "bound": "length<=%d" % d["hist_chain"]})
     order = []
     for s in out:
         if s["bound"] not in order:
@@ -345,8 +402,97 @@ def cases_of(p, tier):
                 continue
             for form in forms:
                 yield {"group": "functions", "items": items, "compose_kw": None, "value": form}
+    elif kind == "attribute-names":
+        for idx, items in enumerate(_attrname_items(d)):
+            if idx % p["of"] != p["part"]:
+                continue
+            for form in d["an_forms"]:
+                yield {"group": "attribute-names", "items": items, "compose_kw": None, "value": form}
+    elif kind == "history":
+        for idx, items in enumerate(_history_items(d)):
+            if idx % p["of"] != p["part"]:
+                continue
+            for form in d["hist_forms"]:
+                yield {"group": "history", "items": items, "compose_kw": None, "value": form}
     else:
         raise ValueError(kind)
+
+
+def _attrname_items(d):
+    """Item lists of the group attribute-names: attributes named like element methods and markers."""
+    names = M.NAME_PROFILES
+    base = (0,) + tuple(names)
+    plain = d["profiles"]
+    pool = range(d["pool"])
+    out = []
+    for n in range(1, d["an_chain"] + 1):
+        for perm in itertools.permutations(pool, n):
+            if n <= d["an_full"]:
+                for prof in itertools.product(base, repeat=n):
+                    if any(q in names for q in prof):
+                        out.append([["V", i, q] for i, q in zip(perm, prof)])
+            else:
+                for k in range(n):
+                    for q in names:
+                        out.append([["V", i, q if j == k else _cyclic(i, plain)]
+                                    for j, i in enumerate(perm)])
+
+    def v(i, q=None):
+        return ["V", i, _cyclic(i, plain) if q is None else q]
+    for i, j in itertools.permutations(pool, 2):        # the attributes as keywords of Compose / Combine
+        k = [m for m in pool if m not in (i, j)][0]
+        for q in names:
+            kw = M.PROFILES[q]
+            comp = ["Compose", [v(i), v(j)], copy.deepcopy(kw)]
+            out.append([copy.deepcopy(comp)])
+            out.append([v(k), copy.deepcopy(comp)])
+            out.append([copy.deepcopy(comp), v(k)])
+            out.append([["Combine", [v(i), v(j)], copy.deepcopy(kw)]])
+            out.append([["Combine", [v(i, q), v(j)], dict(copy.deepcopy(kw), type="tc", name="cn")]])
+            out.append([v(k), ["Combine", [v(i), v(j)], dict(copy.deepcopy(kw), type="tc")]])
+    return out
+
+
+def _history_items(d):
+    """Item lists of the group history: variables with partial getters."""
+    plain = d["profiles"]
+    pool = range(d["pool"])
+
+    def p(i, shift=0):
+        return ["P", i, _cyclic(i + shift, plain)]
+    out = []
+    for n in range(1, d["hist_chain"] + 1):
+        for perm in itertools.permutations(pool, n):
+            out.append([p(i, n) for i in perm])
+    for n in range(2, d["hist_nest"] + 1):
+        for perm in itertools.permutations(pool, n):
+            out.extend(M.bracketings([p(i) for i in perm]))
+    for i, j in itertools.permutations(pool, 2):
+        k = [m for m in pool if m not in (i, j)][0]
+        out.append([["Combine", [p(i), p(j)], {}]])
+        out.append([p(k), ["Combine", [p(i), p(j)], {"type": "tc"}]])
+        out.append([["Combine", [p(i), p(j)], {"type": "tc", "name": "cn"}], p(k)])
+        out.append([["Compose", [p(k), ["Combine", [p(i), p(j)], {"type": "tc"}]], {}]])
+    return out
+
+
+def preludes(items):
+    """The histories of the group history: lists of 1..2 value descriptions applied before the judged
+    value. For every partial getter of the items there are values outside its domain."""
+    def ok(form):
+        return {"form": form, "data": "int"}
+    out = [[ok(f)] for f in PRELUDE_FORMS]
+    out.append([{"form": "plain", "data": "other-int"}])
+    seen = []
+    for leaf in [l for s in items for l in M.all_leaves(s)]:
+        if leaf[0] != "P" or leaf[1] in seen:
+            continue
+        seen.append(leaf[1])
+        for a, form in enumerate(PRELUDE_FORMS):
+            bad = {"form": form, "data": M.outside_domain(leaf[1])}
+            out.append([bad])
+            out.append([ok(PRELUDE_FORMS[a - 1]), dict(bad)])
+    return out
 
 
 def _container_items(d, profiles):
@@ -393,7 +539,7 @@ FN_ABS_KWS = ({"latex_name": "L"}, {"name": "an", "latex_name": "L"}, {"name": "
 
 def _fn_variants(i, k):
     """Plain variable number i and three variables made from it by abs (k varies the choices)."""
-    n_prof = len(M.PROFILES)
+    n_prof = M.FUNCTION_PROFILES
     pc, p2 = (i + k) % n_prof, (i + 2 * k + 1) % n_prof
     kwa, kwb = FN_ABS_KWS[0], FN_ABS_KWS[1 + (i + k) % 2]
     return [["N", i, pc],
@@ -405,7 +551,7 @@ def _fn_variants(i, k):
 def _function_items(d):
     out = []
     pool = range(d["pool"])
-    n_prof = len(M.PROFILES)
+    n_prof = M.FUNCTION_PROFILES
     for i in pool:                          # one function variable alone: everything
         for q in range(n_prof):
             for kw in FN_ABS_KWS:
@@ -504,6 +650,9 @@ def build(spec, nodes, path):
         name, typ, attrs = M.leaf_fields(spec)
         i = spec[1]
         var = lena.variables.Variable(name, getter=lambda x, i=i: (i, x), type=typ, **attrs)
+    elif kind == "P":
+        name, typ, attrs = M.leaf_fields(spec)
+        var = lena.variables.Variable(name, getter=_partial_getter(spec[1]), type=typ, **attrs)
     elif kind == "N":
         name, typ, attrs = M.leaf_fields(spec)
         a, b = M.AFFINE[spec[1]]
@@ -523,6 +672,21 @@ def build(spec, nodes, path):
         var = cls(*subs, **kw)
     nodes.append((kind, path, var))
     return var
+
+
+GETTER_ERRORS = (TypeError, KeyError, ValueError, ZeroDivisionError, IndexError)
+
+
+def _partial_getter(i):
+    """x -> (i, x), not defined (raises) on the data outside_domain(i), however deep earlier getters of
+    the chain have wrapped them."""
+    bad, exc, innermost = M.outside_domain(i), GETTER_ERRORS[i % len(GETTER_ERRORS)], M.innermost
+
+    def getter(x):
+        if innermost(x) == bad:
+            raise exc("value outside the domain of the getter of variable %d" % i)
+        return (i, x)
+    return getter
 
 
 class Nodes(list):
@@ -669,6 +833,13 @@ def _value(vs, items):
 
 
 def judge(res, case):
+    if case.get("group") == "history":
+        return judge_history(res, case)
+    return _judge(res, case) is not None
+
+
+def _judge(res, case):
+    """Judge one case on fresh objects; returns {side: first result} (None: nothing could be built)."""
     items, kw, vs = case["items"], case.get("compose_kw"), case["value"]
     form, container, dk = _vspec(vs)
     group = case.get("group", "replay")
@@ -686,7 +857,7 @@ def judge(res, case):
                 res.case(nontrivial=False, outcome=("build", type(e).__name__, M.skeleton(s)),
                          key=json.dumps(case, sort_keys=True))
                 res.count("cases_" + group)
-                return False
+                return None
     x0, c0 = M.split_value(_value(vs, items))
     pre = c0.get("variable")
     frame0 = {k: v for k, v in c0.items() if k != "variable"}
@@ -808,7 +979,90 @@ def judge(res, case):
     res.count("cases_" + group)
     res.count("applications", 3 * len(sides))
     res.maximum("types_kept_apart", n_types)
-    return nontrivial
+    return first
+
+
+# ---------------------------------------------------------------------------------------------------
+# law "history-independence": a variable is a function of the value it is given. The same Sequence /
+# Compose object is first applied to the values of a prelude (some of which make a getter raise) and then
+# to the judged value; it must give what a fresh object gives (which _judge compares with the model).
+def _step_kind(st):
+    return "fails" if st["data"].startswith(M.OUTSIDE) else \
+        ("ok" if st["data"] == "int" else "other-data")
+
+
+def _fails_at(items, prelude):
+    """Where in the order of the getters the (last) failing getter of the prelude stands."""
+    idx = [l[1] for s in items for l in M.all_leaves(s)]
+    out = "none"
+    for st in prelude:
+        if _step_kind(st) == "fails":
+            i = int(st["data"][len(M.OUTSIDE):])
+            k = idx.index(i)
+            out = "only" if len(idx) == 1 else ("first" if k == 0 else
+                                                ("last" if k == len(idx) - 1 else "inner"))
+    return out
+
+
+def judge_history(res, case):
+    items, form = case["items"], case["value"]
+    base_case = {"group": "history", "items": items, "compose_kw": None, "value": form}
+    first = _judge(res, base_case)
+    if first is None:
+        return False
+    types = M.required_result(M.split_value(_value(form, items))[1].get("variable"),
+                              [M.describe(s) for s in items])[1]
+    only = case.get("prelude")
+    for prelude in ([only] if only is not None else preludes(items)):
+        pcase = dict(base_case, prelude=prelude)
+        kinds = [_step_kind(st) for st in prelude]
+        cause0 = {"group": "history", "pre": PRE_CLASS[form], "prelude": kinds,
+                  "fails_at": _fails_at(items, prelude)}
+        raised_any, seen = False, []
+        for side in ("sequence", "compose"):
+            if side not in first:
+                continue            # the fresh object already failed (reported by _judge)
+            cause = dict(cause0, side=side)
+            s = Side(side, items, None)
+            before = snapshot(s.nodes)
+            steps = []
+            for st in prelude:
+                try:
+                    s.apply(_value(st, items))
+                    steps.append("returned")
+                except Exception as e:      # outside the domain: recorded, not judged
+                    steps.append(type(e).__name__)
+                    raised_any = True
+            try:
+                r = _norm(s.apply(_value(form, items)))
+            except Exception as e:
+                res.violation(pcase, "raised %s: %s" % (type(e).__name__, str(e)[:200]),
+                              _short(first[side]),
+                              dict(cause, law="history-independence", differs_in="raised",
+                                   exc=type(e).__name__))
+                seen.append((side, tuple(steps), "raised"))
+                continue
+            after = snapshot(s.nodes)
+            if not _wellformed(r) or not M.same(r, first[side]):
+                din = "shape" if not _wellformed(r) else _differs_in(first[side], r, types)
+                res.violation(pcase, _short(r), _short(first[side]),
+                              dict(cause, law="history-independence", differs_in=din),
+                              note="expected is what a fresh object gives for the same value; the "
+                                   "prelude was applied to this object before: %s" % steps)
+            if before != after:
+                res.violation(pcase, "changed: %s" % changed_kinds(before, after), "no variable changes",
+                              dict(cause, law="variable-unchanged", after="history",
+                                   nodes=changed_kinds(before, after)))
+            seen.append((side, tuple(steps), canon(r) if _wellformed(r) else repr(r)))
+        other_value = any(st["form"] != form or st["data"] != "int" for st in prelude)
+        res.case(nontrivial=raised_any or other_value, outcome=tuple(seen),
+                 key=json.dumps(pcase, sort_keys=True))
+        res.count("cases_history_preludes")
+        res.count("applications", (len(prelude) + 1) * 2)
+        if raised_any:
+            res.count("history_failed_applications_first" if kinds[0] == "fails"
+                      else "history_failed_applications_later")
+    return True
 
 
 # ---------------------------------------------------------------------------------------------------
